@@ -77,6 +77,7 @@ def worker(job):
                     res["samples"].append(case)
             if not out["ok"]:
                 sig = out["signature"]
+                case = out.get("case", case)
                 size = len(canon(case))
                 cur = res["failures"].get(sig)
                 if cur is None or size < cur["size"]:
@@ -102,7 +103,12 @@ def worker(job):
                     res["post_failure_calls"] += 1
                     if res["post_failure_calls"] > int(os.environ.get("VERIF_SHRINK_CALLS", "150" if tier == "quick" else "1500")):
                         return  # shrink budget spent: let the shrinker finish quickly
-                out = mod.run_case(case)
+                try:
+                    out = mod.run_case(case)
+                except Exception as e:
+                    if res["harness_error"] is None:
+                        res["harness_error"] = "".join(traceback.format_exception(type(e), e, e.__traceback__))[-2500:] + "\ncase: " + canon(case)[:3000]
+                    raise
                 record(case, out)
                 if not out["ok"]:
                     state["failed"] = True
@@ -111,7 +117,7 @@ def worker(job):
             try:
                 run()
             except BaseException as e:  # the verdict is what `record` collected, not Hypothesis' report
-                if not res["failures"]:
+                if not res["failures"] and res["harness_error"] is None:
                     if isinstance(e, (KeyboardInterrupt, SystemExit)):
                         raise
                     res["harness_error"] = "".join(traceback.format_exception(type(e), e, e.__traceback__))[-3000:]
@@ -189,9 +195,10 @@ def main(argv=None):
         for k, v in r["extra"].items():
             extra[k] = extra.get(k, 0) + v if isinstance(v, (int, float)) and not isinstance(v, bool) else v
     samples = [s for r in results for s in r["samples"]][:3]
-    failures = {}
+    failures, seen_in = {}, {}
     for r in results:
         for sig, f in r["failures"].items():
+            seen_in[sig] = seen_in.get(sig, 0) + 1
             if sig not in failures or f["size"] < failures[sig]["size"]:
                 failures[sig] = f
     herr = [r["harness_error"] for r in results if r["harness_error"]]
@@ -209,7 +216,7 @@ def main(argv=None):
         path = os.path.join(replay_dir, f"{pid}-{sha(f['case'])}.json")
         with open(path, "w") as fh:
             json.dump({"property": pid, "signature": sig, "detail": f["detail"], "case": f["case"]}, fh, indent=1, default=repr)
-        print(f"{sig}: {f['detail'][:600]}")
+        print(f"{sig} (in {seen_in[sig]}/{nshards} shards): {f['detail'][:600]}")
         print(f"VIOLATION property={pid} replay={path}")
         rc = 1
     if herr and rc == 0:
@@ -230,6 +237,8 @@ def main(argv=None):
     cov.update(extra)
     if known_hits:
         cov["known_findings_reproduced"] = known_hits
+    if hasattr(mod, "evidence_hook"):
+        cov = mod.evidence_hook(cov)
     ev = {
         "property_id": pid,
         "tier": args.tier,
